@@ -252,7 +252,7 @@ void drive(Ctx& c, std::vector<std::size_t> const& poss, std::vector<std::size_t
             {
                 auto ss = s.substr(pos, cnt);
                 char sit_[96];
-                std::snprintf(sit_, sizeof sit_, "%s,%s,%s", c.hcls, poscls(pos, s.size()), cnt == NPOS ? "count=npos" : (cnt > s.size() - pos ? "count>rest" : "count<=rest"));
+                std::snprintf(sit_, sizeof sit_, "%s,%s,%s", c.hcls, poscls(pos, s.size()), cnt == NPOS ? "count=npos" : (cnt > NPOS / 2 ? "count-huge" : (cnt > s.size() - pos ? "count>rest" : "count<=rest")));
                 vf::crumb(SUBJ, "substr(pos,count)", sit_, "%s %s pos=%lld count=%lld", c.pres, c.desc.c_str(), P(pos), P(cnt));
                 auto es = e.substr(pos, cnt);
                 vf::cover("substr(pos,count)", vf::mix(c.hbase, vf::mix(pos, cnt)), nontrivial);
@@ -369,6 +369,8 @@ void run_case(vf::Case& c)
         poss.push_back(NPOS - 1);
         for (std::size_t k = 0; k <= n.size() + 1; ++k) { counts.push_back(k); }
         counts.push_back(NPOS);
+        counts.push_back(NPOS - 1);     // huge but not npos: pos + count must not wrap
+        counts.push_back(NPOS / 2 + 2); // above PTRDIFF_MAX
     } else {
         unsigned A   = 2 + (unsigned)c.rng.below(3);
         std::size_t hl = (std::size_t)c.rng.below(41);
@@ -387,6 +389,7 @@ void run_case(vf::Case& c)
         for (int i = 0; i < 2; ++i) { counts.push_back((std::size_t)c.rng.below(hl + 2)); }
         counts.push_back(0);
         counts.push_back(NPOS);
+        counts.push_back(c.rng.chance(1, 2) ? NPOS - 1 - (std::size_t)c.rng.below(4) : NPOS / 2 + (std::size_t)c.rng.below(4));
     }
     one_pair(h, n, poss, counts);
 }
